@@ -362,6 +362,10 @@ func (ex *Exec) applyContract(f *frame, st *State, c *Contract, callee *ssa.Func
 	results := ex.freshResults(f, st, sig, hint)
 	ex.setResult(f, res, results)
 	envPost := ex.contractEnv(c, callee, sig, recv, recvT, args, st, pre)
+	envPost.extraCands = map[string][]Term{}
+	for _, a := range args {
+		envPost.extraCands[a.Sort] = append(envPost.extraCands[a.Sort], a)
+	}
 	rs := sig.Results()
 	for i := 0; i < rs.Len(); i++ {
 		if n := rs.At(i).Name(); n != "" && n != "_" {
@@ -674,6 +678,39 @@ func (V *Verifier) verifyFunction(fn *ssa.Function, lockMode bool) *FnResult {
 		}
 	}
 	f.params = params
+	if ex.instCands == nil {
+		ex.instCands = map[string][]Term{}
+	}
+	for _, pt := range params {
+		ex.instCands[pt.Sort] = append(ex.instCands[pt.Sort], pt)
+	}
+	if c != nil {
+		// skolem constants of this function's own quantified postconditions exist from the start,
+		// so that callee contracts assumed along the way are instantiated at them
+		genv := ex.frameEnv(f, entry, entry)
+		genv.goal = true
+		var quantified []ast.Expr
+		for _, e := range c.Ensures {
+			quantified = append(quantified, e.Expr)
+		}
+		for _, ls := range c.Loops {
+			for _, inv := range ls.Invariants {
+				quantified = append(quantified, inv.Expr)
+			}
+		}
+		for _, qe := range quantified {
+			ast.Inspect(qe, func(n ast.Node) bool {
+				if ce, ok := n.(*ast.CallExpr); ok {
+					if id, ok := ce.Fun.(*ast.Ident); ok && id.Name == "forall" && len(ce.Args) == 3 {
+						if t, err := genv.typeOf(ce.Args[1]); err == nil {
+							ex.skolemFor(types.ExprString(ce), sc.sortOf(t))
+						}
+					}
+				}
+				return true
+			})
+		}
+	}
 	if c != nil {
 		env := ex.frameEnv(f, entry, entry)
 		ex.inRequires = true
@@ -717,6 +754,7 @@ func (V *Verifier) verifyFunction(fn *ssa.Function, lockMode bool) *FnResult {
 	ex.runBody(f, entry, params)
 	if c != nil && f.exit.reach.S != "false" {
 		env := ex.frameEnv(f, f.exit, f.entry)
+		env.goal = true
 		for _, e := range c.Ensures {
 			lab := e.Label
 			if lab == "" {
